@@ -551,6 +551,10 @@ func (bf *buffer) WriteCommit(n int) (int, error) {
 }
 
 func (bf *buffer) waitForWriteSpace(n int) (int64, int, error) {
+	if int64(n) > bf.size {
+		return 0, 0, bufio.ErrBufferFull
+	}
+
 	verifYield(30)
 	if bf.isDone() {
 		return 0, 0, io.EOF
